@@ -56,6 +56,7 @@ C_X = {'hessian|central': 3.0, 'hessian|central2': 3.0, 'hessian|complex': 3.0, 
        'hessdiag|central': 500.0, 'hessdiag|central2': 10.0, 'hessdiag|complex': 3.0, 'hessdiag|multicomplex': 3.0,
        'hessdiag|forward': 30.0, 'hessdiag|backward': 30.0}
 C_XR = 300.0
+ASYMPTOTIC = 1e-2     # the extrapolated order is asserted only when T_p(w h_max) <= ASYMPTOTIC * S_2
 OVERFLOW = 1e150
 H_METHODS = ['central', 'central2', 'forward', 'backward', 'complex', 'multicomplex']
 REAL_STEP = ('central', 'central2', 'forward', 'backward')
@@ -391,7 +392,8 @@ class C04(Prop):
                                               [hs[:, j]] if j == k else [hs[:, j], hs[:, k]], k_est, aux['ratio'], wx,
                                               dform, aux['amp'])
                     if ux is not None and ux[0] > 0 and math.isfinite(ux[0]):
-                        U, which, t, Tp, Rp = ux
+                        U, which, t, Tp, Rp, Tmax = ux
+                        asymptotic = Tmax <= ASYMPTOTIC * S
                         xlabel = '%s|%s|%s' % (target, method, 'geo' if spec['kind'] == 'geo' else cfg)
                         if method == 'multicomplex' and (order or 0) >= 4:
                             xlabel += '|mcx-order>=4'
@@ -404,8 +406,10 @@ class C04(Prop):
                             ctx.track('x-order err/T (T>=R)|%s' % xlabel, excess / Tp, summ)
                         else:
                             ctx.track('x-order err/R (R>T)|%s' % xlabel, excess / Rp, summ)
-                        cx = C_X.get('%s|%s' % (target, method)) if (spec['kind'] == 'geo' or (
+                        cx = C_X.get('%s|%s' % (target, method)) if asymptotic and (spec['kind'] == 'geo' or (
                             cfg == 'default' and method in REAL_STEP)) else None
+                        if not asymptotic:
+                            ctx.count('x-order not asserted: sequence not asymptotic (T_p(h_max) > 1e-2 S_2)')
                         if cx is not None and not CALIBRATE:
                             if spec['kind'] == 'geo':
                                 ctx.count('x-order asserted on a short geometric user sequence|%s|%s' % (target, method))
